@@ -23,6 +23,7 @@ func Assertf(c bool, id string, msg string)
 // ¬c ∧ trigger is reachable; otherwise proves c.
 func AssertUnless(c bool, trigger bool, id string, key string)
 func KnownFaultRegion(trigger bool, key string)
+func Digest(name string, v uint64)
 func Reach(label string)
 func Param(name string, def int) int
 func Note(msg string)
@@ -55,6 +56,7 @@ func FileView(path string) []byte
 func WriteFileBytes(path string, b []byte)
 func PokeFile(path string, off int64, v byte)
 func PeekFile(path string, off int64) byte
+func PokeDelete(path string)
 func SymbolicTruncate(on bool)
 func LastTruncate() (size int64, any bool)
 func CrashArm()
